@@ -1,4 +1,5 @@
-package c15
+// Package pgen is the type-directed policy generator shared by the validator checks (C15 soundness, C16 totality).
+package pgen
 
 import (
 	"strings"
@@ -434,6 +435,23 @@ func swapRoot(e *ir.Expr) *ir.Expr {
 	return out
 }
 
+// Dotted is the validator's identity of an access chain rooted in a variable ("" if e is not such a chain).
+func Dotted(e *ir.Expr) (string, []string) {
+	switch e.Op {
+	case ir.OpVar:
+		return e.Name, []string{e.Name}
+	case ir.OpAccess:
+		d, parts := Dotted(e.Args[0])
+		if d == "" {
+			return "", nil
+		}
+		return d + "." + e.Name, append(append([]string{}, parts...), e.Name)
+	}
+	return "", nil
+}
+
+func dotted(e *ir.Expr) (string, []string) { return Dotted(e) }
+
 // alias finds another access chain with the same dotted rendering as base (e.g. principal["a.b"] for principal.a.b).
 func (g *pg) alias(base *ir.Expr) *ir.Expr {
 	d, parts := dotted(base)
@@ -769,8 +787,11 @@ func (g *pg) scopes(p *ir.Policy) {
 	}
 }
 
-// genPolicy draws a policy aimed at env; the slips taken are returned for labelling.
-func genPolicy(rt *rapid.T, rs *sch.RSchema, env sch.REnv, extAsCall bool, cache map[int][]ppath, envIdx int) (*ir.Policy, []string) {
+// Cache holds the enumerated attribute paths per request environment of one schema.
+type Cache map[int][]ppath
+
+// GenPolicy draws a policy aimed at env; the slips taken are returned for labelling.
+func GenPolicy(rt *rapid.T, rs *sch.RSchema, env sch.REnv, extAsCall bool, cache Cache, envIdx int) (*ir.Policy, []string) {
 	g := &pg{t: rt, rs: rs, env: env, slipsLeft: 2, caps: map[string]bool{}, extAsCall: extAsCall, strictish: gen.Chance(rt, 85, "strictish")}
 	if ps, ok := cache[envIdx]; ok {
 		g.paths = ps // read-only: every use clones the expression
